@@ -55,6 +55,10 @@ def main(tier, replay):
     jobs[-1]['opt']['max_steps'] = 80000000
     J('bitpacked-129-groups-w2-p4', 'p4', [0, 1030, 1, 1, 1, 0, 0, 0, 0, 0, 0])
     jobs[-1]['opt']['max_steps'] = 80000000
+    # pages of exactly 8 records (bool values fill whole bytes) followed by further pages
+    for n in ('flat_bool', 'p3'):
+        for fsx in (1, 2):
+            J('pages-of-eight-%s-fs%d' % (n, fsx), n, [0, 20, fsx, 1, 1, 0, 4, 2, fsx % 3, 0, 0])
     # RLE runs of 8200 levels (run header of three LEB128 bytes)
     for fs in ((1,) if quick else (0, 1)):
         J('rle-run-8200-flat_int64-fs%d' % fs, 'flat_int64', [0, 8200, fs, 1, 1, 0, 0, 1, 0, 0, 0])
@@ -64,7 +68,7 @@ def main(tier, replay):
     c.programs = len(P)
     c.bounds = {'records': '3 fixed-structure records (three structures), or 1 free + 1 fixed; long pages of 9, 17 and 520 (1030 thorough) records',
                 'level streams': 'five run-segmentation strategies (single bit-packed run with SYMBOLIC padding values in the last group; maximal RLE runs incl. length 1; RLE for repeats >= 2 else bit-packed groups; every RLE run split in two; bit-packed prefix + RLE tail); bit-packed runs of 65, 129 and 257 groups (width 1) and 129 groups (width 2); RLE runs of 8200 levels (three-byte header)',
-                'pages / row groups': 'one page per chunk, one page per record, chosen at every record boundary, a page without values at the start / after the first page / at the end of every chunk; one row group, one per record, chosen', 'codec': 'fixed, or chosen independently per column',
+                'pages / row groups': 'one page per chunk, one page per record, chosen at every record boundary, a page without values at the start / after the first page / at the end of every chunk, pages of exactly eight records; one row group, one per record, chosen', 'codec': 'fixed, or chosen independently per column',
                 'optional thrift fields': 'created_by, key_value_metadata, crc present or absent; page Statistics absent / null_count only / min_value+max_value only / all six members, chosen once per file (per page for programs of <= 3 columns); in the same jobs the encoding field of a level kind the column does not store is any enum value 0..9 and ColumnChunk.file_offset (deprecated) is the chunk start, 0, or the position after the chunk',
                 'outside': 'NOT decided: real snappy streams with literals and copies (A3: the snappy decoder is a stub) and the thrift wire form of optional fields (A2); more than 3 runs kinds per stream beyond the five strategies'}
     c.assumptions = [STUB_ASSUMPTIONS[k] for k in ('A1', 'A2', 'A3', 'A4', 'A6')] + ['the foreign writer is written from the parquet-format text and the Dremel paper; natively (replay) it emits real thrift/snappy/gzip bytes']
